@@ -55,6 +55,9 @@ type srcSpec struct {
 	Name    string      `json:"n,omitempty"`
 	File    fileSpec    `json:"f,omitempty"`
 	Entries []entrySpec `json:"es,omitempty"`
+	// path forms (the model does not see them: the result must not depend on them)
+	Slash   bool `json:"slash,omitempty"`   // directory path given with a trailing separator
+	ViaLink bool `json:"vialink,omitempty"` // file path is a symbolic link (named File.Name) to the regular file
 }
 
 type opSpec struct {
@@ -147,8 +150,25 @@ func contentBytes(c contentSpec) []byte {
 	}
 	switch c.Kind {
 	case "ok":
+		if c.Variant == "dupname" { // duplicate JSON member: the last one counts
+			return []byte("#!/bin/sh\n" + salt + "printf '%s\\n' '{\"name\":\"shadowed\",\"name\":\"" + c.Name + "\",\"description\":\"stub plugin\",\"version\":\"0.0.1\",\"version\":\"" + c.Version + "\",\"url\":\"https://example.test/p\",\"supportedContractVersions\":[\"1.0\"],\"capabilities\":[\"SIGNATURE_GENERATOR.RAW\"]}'\n")
+		}
 	case "malformed":
 		switch c.Variant {
+		case "null":
+			return []byte("#!/bin/sh\n" + salt + "echo null\n")
+		case "emptyobj":
+			return []byte("#!/bin/sh\n" + salt + "echo '{}'\n")
+		case "emptyout":
+			return []byte("#!/bin/sh\n" + salt + "exit 0\n")
+		case "numver":
+			return []byte("#!/bin/sh\n" + salt + "printf '%s\\n' '{\"name\":\"" + c.Name + "\",\"description\":\"stub plugin\",\"version\":1,\"url\":\"https://example.test/p\",\"supportedContractVersions\":[\"1.0\"],\"capabilities\":[\"SIGNATURE_GENERATOR.RAW\"]}'\n")
+		case "nover":
+			return []byte("#!/bin/sh\n" + salt + "printf '%s\\n' '{\"name\":\"" + c.Name + "\",\"description\":\"stub plugin\",\"url\":\"https://example.test/p\",\"supportedContractVersions\":[\"1.0\"],\"capabilities\":[\"SIGNATURE_GENERATOR.RAW\"]}'\n")
+		case "emptycaps":
+			m.Capabilities = []string{}
+		case "nocontract":
+			m.SupportedContractVersions = []string{}
 		case "nodesc":
 			m.Description = ""
 		case "nocaps":
@@ -166,6 +186,8 @@ func contentBytes(c contentSpec) []byte {
 		switch c.Variant {
 		case "exit1":
 			return []byte("#!/bin/sh\n" + salt + "exit 1\n")
+		case "empty": // zero-length file
+			return []byte{}
 		case "errjson":
 			return []byte("#!/bin/sh\n" + salt + "echo '{\"errorCode\":\"ERROR\",\"errorMessage\":\"stub failure\"}' >&2\nexit 1\n")
 		default: // text
@@ -256,6 +278,14 @@ func (e *histEnv) materialise(s srcSpec) string {
 		return p
 	case "file":
 		p := filepath.Join(d, s.File.Name)
+		if s.ViaLink {
+			tgt := filepath.Join(d, "real-target.bin")
+			writeFileMode(tgt, e.bytesOf(s.File.Cid), s.File.Mode)
+			if err := os.Symlink(tgt, p); err != nil {
+				panic(err)
+			}
+			return p
+		}
 		writeFileMode(p, e.bytesOf(s.File.Cid), s.File.Mode)
 		return p
 	case "dir":
@@ -285,6 +315,9 @@ func (e *histEnv) materialise(s srcSpec) string {
 					panic(err)
 				}
 			}
+		}
+		if s.Slash {
+			return p + string(filepath.Separator)
 		}
 		return p
 	}
